@@ -10,9 +10,8 @@ import (
 )
 
 // ParseCorpus turns hand-written Lua text (corpus witnesses) into the generator's AST, using the
-// interpreter's own parser for the syntax only. `local function f` and `local f = function` are
-// one AST in that parser: the text convention here is that a local bound to a single function
-// expression is `local function` unless the name starts with "lf_".
+// interpreter's own parser for the syntax only (`local function f` is the LocalAssignStmt marked
+// IsFunction).
 func ParseCorpus(src string) (prog []Stmt, err error) {
 	defer func() {
 		if r := recover(); r != nil {
@@ -51,10 +50,8 @@ func cvStmt(s ast.Stmt) Stmt {
 	case *ast.AssignStmt:
 		return &Assign{LHS: cvExprs(s.Lhs), Es: cvExprs(s.Rhs)}
 	case *ast.LocalAssignStmt:
-		if len(s.Names) == 1 && len(s.Exprs) == 1 {
-			if f, ok := s.Exprs[0].(*ast.FunctionExpr); ok && !strings.HasPrefix(s.Names[0], "lf_") {
-				return &LocalFunc{X: s.Names[0], F: cvFunc(f)}
-			}
+		if s.IsFunction {
+			return &LocalFunc{X: s.Names[0], F: cvFunc(s.Exprs[0].(*ast.FunctionExpr))}
 		}
 		return &Local{Names: append([]string{}, s.Names...), Es: cvExprs(s.Exprs)}
 	case *ast.FuncCallStmt:
